@@ -316,7 +316,33 @@ def fam_mix(rng, tier):
     return res
 
 
-FAMILIES = [fam_mix, fam_transfer, fam_pingpong, fam_multi, fam_nonblock, fam_badfd, fam_accept, fam_closewake, fam_migrate]
+def fam_duplex(rng, tier):
+    """two fibers blocked on the SAME descriptor in DIFFERENT directions; the descriptor becomes
+    ready only for the direction that was registered first (the interest of the first waiter
+    must survive the registration of the second).  The peer's next step waits (barrier / needs
+    the data) for the first waiter to resume, so a lost wake-up is a hang, not a delay."""
+    res = []
+    cfg = [(0, 1000000), (4, 200000), (2, 300000)]
+    for kind, n in cfg:
+        for _ in range(1 if tier == "quick" else 4):
+            rd = rng.choice([O_READ, O_RECV, O_READV, O_RECVFROM, O_RECVMSG])
+            wv = rng.choice([0, 1, 2, 3, 4])
+            # reader first, writer second, then ONE byte arrives: the reader must return while
+            # the writer is still blocked; only then does the peer drain
+            thr = [[(rd, 0, 1, 0), (O_BARRIER, 0, 2, 0)],
+                   [(O_SLEEP, 0, 40, 0), (O_WRITE_ALL, 0, n, wv)],
+                   [(O_SLEEP, 0, 110, 0), (O_WRITE, 1, 1, 0), (O_BARRIER, 0, 2, 0), (O_READ_ALL, 1, n, rng.choice([0, 1, 2]))]]
+            res.append(Script("duplex", [kind], thr, timeout=3000, note="reader-first"))
+            # writer first (buffer full), reader second, then the peer drains: the writer must
+            # resume to deliver the rest; afterwards one byte releases the reader
+            thr = [[(O_WRITE_ALL, 0, n, wv)],
+                   [(O_SLEEP, 0, 60, 0), (rd, 0, 1, 0)],
+                   [(O_SLEEP, 0, 130, 0), (O_READ_ALL, 1, n, rng.choice([0, 1, 2])), (O_WRITE, 1, 1, 0)]]
+            res.append(Script("duplex", [kind], thr, timeout=3000, note="writer-first"))
+    return res
+
+
+FAMILIES = [fam_duplex, fam_mix, fam_transfer, fam_pingpong, fam_multi, fam_nonblock, fam_badfd, fam_accept, fam_closewake, fam_migrate]
 
 
 def gen_scripts(ctx, tier):
@@ -327,7 +353,7 @@ def gen_scripts(ctx, tier):
     if tier == "thorough":
         # more draws of the randomised families
         for _ in range(30):
-            for f in (fam_mix, fam_transfer, fam_pingpong, fam_multi, fam_accept):
+            for f in (fam_mix, fam_transfer, fam_pingpong, fam_multi, fam_accept, fam_duplex):
                 res += f(rng, tier)
     if os.environ.get("VERIF_C08_IDIOMS", "1") != "0":
         res += fam_idiom(rng, tier)
@@ -481,6 +507,8 @@ def classify(sc, why, I=None):
 CLASS_ID = {"bad-fd-close": "F-C08a", "bad-fd-modeswitch": "F-C08b", "nonblocking-ignored": "F-C08c",
             "accept-eagain": "F-C08d", "mode-idiom": "F-C08e", "stale-errno": "F-C08f"}
 CLASS_TEXT = {
+    "other:duplex": "a fiber blocked on a descriptor is not resumed when it becomes ready while another fiber is blocked on "
+                    "the same descriptor for the other direction",
     "bad-fd-close": "close() of a descriptor outside [0,max_fd) indexes wait_info unchecked in fiber_fd_closed",
     "bad-fd-modeswitch": "fcntl(F_SETFL,O_NONBLOCK) / ioctl(FIONBIO) on a descriptor that is out of range or not open "
                          "update fd_info unchecked and report success",
@@ -782,6 +810,11 @@ def run(ctx):
         case = head["script"] if head else ""
         trace = json.dumps(ev[:12], indent=1)
         report(ctx, "h_io:" + cls, case, why, trace, kn)
+    if G is None and ctx.violations:
+        # concrete failing inputs were found by the search; keep the translator's verdict visible too
+        msg = next((d for (n, ok, d) in ctx.obligations if n.startswith("translator:") and not ok), "")
+        report(ctx, "translator", "", "[translator] gen_shims.py rejected the working tree (the differential scripts were "
+               "run as the search for a failing input: see the other replays): " + msg.strip()[-600:], "", kn)
     core.finish(ctx, level="proof+differential (partial: kernel outside the model)",
                 checker_cmd="python3 tools/gen/gen_shims.py ; cd coq && coqc -Q . LF Properties_C08.v gen/ShimMatch.v ; "
                             "rt/h_io impl|ref < scripts ; build/driver fdshim",
